@@ -114,6 +114,12 @@ fn main() {
             q!(2, 3, 4, 5, 6, 7, 8, 9, 10, 11, 12, 13, 14, 15, 16, 17, 18, 19, 20, 21, 22, 23, 24, 25, 26, 27, 28, 29, 30, 31, 32);
             cells.extend(vpchecks::pxx::cells());
         }
+        "C04" | "C12" | "C17" => {
+            // PxE2<N> as a client of the Q32E2 accumulator
+            let want = cfg.prop.clone();
+            macro_rules! q { ($($n:literal),*) => {$( cells.extend(vpchecks::pxq::cells::<$n>(t, &want)); )*}; }
+            q!(2, 3, 4, 5, 6, 7, 8, 9, 10, 11, 12, 13, 14, 15, 16, 17, 18, 19, 20, 21, 22, 23, 24, 25, 26, 27, 28, 29, 30, 31, 32);
+        }
         p => {
             eprintln!("vp_px: no cells for property {p}");
             std::process::exit(2);
